@@ -308,6 +308,7 @@ pub fn run_c07(out: &mut Out, seed: u64, thorough: bool) {
                 out.sample(l.clone());
             }
             run_line(out, &mut s, &l);
+            run_line(out, &mut s, &format!("spec.reloadasm {} {} {} {}", ss, ps, hexs(&p), 80));
         }
         // a program that sets no program size / no stack size after one that set both, and the other way round
         for (a, b) in [(("48", "7"), ("N", "N")), (("N", "N"), ("32", "A")), (("64", "200"), ("16", "N")), (("0", "A"), ("N", "3"))] {
@@ -322,6 +323,27 @@ pub fn run_c07(out: &mut Out, seed: u64, thorough: bool) {
         run_line(out, &mut s, "masterreset");
         run_line(out, &mut s, "d");
         run_line(out, &mut s, "ram");
+        // a history that ends in a detected micro-program hang (undefined opcode stepped in assembly mode,
+        // interrupt pending or not), then load / master reset: must still run like a new machine, also when
+        // stepped with the clock key
+        {
+            let mut h = Sess::new();
+            run_line(out, &mut h, "new");
+            let bad = *rng.pick(&[0x4Cu8, 0x4D, 0x4F, 0xE0, 0xE7, 0xEF]);
+            run_line(out, &mut h, &format!("load 16 255 0244{:02x}0202", bad));
+            run_line(out, &mut h, "mode A");
+            for _ in 0..(3 + rng.below(4)) {
+                run_line(out, &mut h, "clock");
+            }
+            if rng.chance(1, 2) {
+                run_line(out, &mut h, "mode R");
+            }
+            run_line(out, &mut h, "d");
+            let p = confined_program(&mut rng);
+            run_line(out, &mut h, &format!("spec.reloadasm 16 A {} 80", hexs(&p)));
+            run_line(out, &mut h, &format!("spec.resetasm 16 A {} 80", hexs(&p)));
+            run_line(out, &mut h, &format!("spec.reload 16 A {} 300", hexs(&p)));
+        }
     }
 }
 
